@@ -5,20 +5,31 @@
 // released in every order, optionally a late connection is dialled (racing with Close or after it
 // returned). Every schedule within the deviation bound is executed and the statement's clauses are
 // evaluated on the recorded event order.
+//
+// Beyond the plain matrix (see AUDIT.md): exchange flavours (second exchange of a keep-alive connection, POST
+// parked mid request body, chunked / close-marked origin responses, failing modifiers, skipped round trips,
+// CONNECT that fails, CONNECT tunnels, exchanges inside a MITM'd CONNECT), two accept loops on one proxy (what
+// cmd/proxy does with -tls-address) with a late connection at each listener, and a traffic-shaped listener.
 package main
 
 import (
-	"errors"
-	"net"
+	"bufio"
+	"crypto/x509"
 	"encoding/json"
-	"net/http"
+	"errors"
 	"fmt"
+	"io"
+	"net"
+	"net/http"
 	"os"
 	"sort"
 	"strings"
 	"time"
 
+	martian "github.com/google/martian/v3"
+	"github.com/google/martian/v3/mitm"
 	"github.com/google/martian/v3/trafficshape"
+	"github.com/google/martian/v3/zzverif/simnet"
 	"github.com/google/martian/v3/zzverif/vrt"
 
 	"verif/checks/pworld"
@@ -29,14 +40,60 @@ import (
 // "idle" and "mid request head" points reached differently: on a connection that has already served one
 // exchange (keep-alive), with the partial head having arrived in the same segment as the previous request,
 // and with a client that never completes the head it started (it only waits for the proxy to close).
-var stageName = []string{"idle", "midhead", "reqmod", "roundtrip", "resmod", "writing", "idle_keepalive", "midhead_pipelined", "midhead_stalled", "midhead_pipelined_stalled"}
+// Stages 10-14 exist only for some flavours: mid request body (post), an established CONNECT tunnel (tunnel),
+// and for a MITM'd CONNECT: idle right after the 200 (client silent), and the CONNECT itself parked in the
+// request / response modifier (client silent after the 200).
+//
+// "writing" (5): the response is larger than the proxy's write buffer and the client's receive window takes one
+// segment, so the handler is parked inside the second write to the connection. "written_unread" (15): a small
+// response has been handed to the network completely, the client has not read it yet and the handler is already
+// waiting for the next request (this is what stage 5 amounted to before the audit).
+// "mitm_tls_hello_stalled" (16): inside a MITM'd CONNECT the client has sent the first bytes of a TLS ClientHello and
+// stalls: the TLS counterpart of "midhead_stalled".
+// "writing_pipelined" (17) / "roundtrip_pipelined" (18): like 5 / 3, and a complete second request (X-Conn "<i>q")
+// arrived in the same segment as the first: it sits in the connection's bufio.Reader when shutdown is requested.
+var stageName = []string{"idle", "midhead", "reqmod", "roundtrip", "resmod", "writing", "idle_keepalive", "midhead_pipelined", "midhead_stalled", "midhead_pipelined_stalled",
+	"midbody", "tunnel_open", "mitm_idle", "connect_reqmod", "connect_resmod", "written_unread", "mitm_tls_hello_stalled", "writing_pipelined", "roundtrip_pipelined"}
+
+const (
+	stMidBody       = 10
+	stTunnelOpen    = 11
+	stMitmIdle      = 12
+	stConnectReqmod = 13
+	stConnectResmod = 14
+	stWrittenUnread = 15
+	stMitmTLSStall  = 16
+	stWritingPiped  = 17
+	stRTPiped       = 18
+)
+
+// bigBodyLen exceeds bufio's 4096-byte default buffer twice over: the response goes out in at least two writes.
+const bigBodyLen = 9000
 
 type scenario struct {
-	Place []int  // stage per connection
-	Order []int  // release order (indices into Place)
-	Late  string // "", "racing", "after"
-	RTErr bool   // the upstream round trip of every exchange fails (the complete response is then the proxy's 502)
-	Shaped bool  // the proxy serves a trafficshape.Listener (closing that listener has side effects on the connections it accepted)
+	Place  []int  // stage per connection
+	Order  []int  // release order (indices into Place)
+	Late   string // "", "racing", "after"
+	RTErr  bool   // the upstream round trip of every exchange fails (the complete response is then the proxy's 502)
+	Shaped bool   // the proxy serves a trafficshape.Listener (closing that listener has side effects on the connections it accepted)
+
+	// Flavor of the parked exchanges: "" plain proxied GET; "prior" the parked exchange is the second one of a
+	// keep-alive connection; "post" request with a body that the round trip reads; "chunked" origin response of
+	// unknown length; "origclose" origin response already marked close; "moderr" both modifiers return errors;
+	// "skiprt" the request modifier skips the round trip; "connect502" CONNECT whose dial fails; "tunnel" CONNECT
+	// tunnel to an echoing origin; "mitm" CONNECT answered by the proxy itself (SetMITM), the parked exchange is a
+	// plain-text request inside that tunnel.
+	Flavor string `json:",omitempty"`
+	// Listeners = 2: the one proxy runs two accept loops (connection i dials listener i%2).
+	Listeners int `json:",omitempty"`
+	// Late2: a second late connection, dialled at the last listener (the first late one dials listener 0).
+	Late2 bool `json:",omitempty"`
+	// TempErr: the listener is one whose Accept fails with a temporary error for a connection that was reset before
+	// it could be accepted ("before": that happens, and the accept loop is backing off, when Close() is called;
+	// "racing": it happens while Close() is being called).
+	TempErr string `json:",omitempty"`
+	// Fam names the family of the scenario in the evidence (no influence on the run).
+	Fam string `json:",omitempty"`
 }
 
 func (s scenario) String() string {
@@ -44,7 +101,38 @@ func (s scenario) String() string {
 	for _, x := range s.Place {
 		p = append(p, stageName[x])
 	}
-	return fmt.Sprintf("place=%v order=%v late=%q rterr=%v shaped=%v", p, s.Order, s.Late, s.RTErr, s.Shaped)
+	out := fmt.Sprintf("place=%v order=%v late=%q rterr=%v shaped=%v", p, s.Order, s.Late, s.RTErr, s.Shaped)
+	if s.Flavor != "" {
+		out += " flavor=" + s.Flavor
+	}
+	if s.Listeners > 1 {
+		out += fmt.Sprintf(" listeners=%d", s.Listeners)
+	}
+	if s.Late2 {
+		out += " late2=true"
+	}
+	if s.TempErr != "" {
+		out += " temperr=" + s.TempErr
+	}
+	return out
+}
+
+// class distinguishes the scenario-wide signatures (outcome, close_returned_early, late_conn_*, ...) of the added
+// scenario classes from those of the plain matrix: "two_listeners", or "connect" for the flavours that run through
+// handleConnectRequest. The other flavours take the same path through the proxy as the plain matrix and share its
+// scenario-wide signatures; per-connection signatures always name the flavour (<symptom>:<stage>@<flavour>).
+func (s scenario) class() string {
+	if s.Listeners > 1 {
+		return "two_listeners"
+	}
+	if s.TempErr != "" {
+		return "temperr"
+	}
+	switch s.Flavor {
+	case "connect502", "tunnel", "mitm":
+		return "connect"
+	}
+	return ""
 }
 
 type finding struct {
@@ -52,54 +140,234 @@ type finding struct {
 	Desc string
 }
 
-const bigBody = 600
+var (
+	mitmCA  *x509.Certificate
+	mitmCfg *mitm.Config
+)
+
+func initMITM() {
+	if mitmCfg != nil {
+		return
+	}
+	c, priv, err := mitm.NewAuthority("verif", "verif", 24*time.Hour)
+	if err != nil {
+		panic(err)
+	}
+	mitmCA = c
+	mitmCfg, err = mitm.NewConfig(c, priv)
+	if err != nil {
+		panic(err)
+	}
+}
+
+const postBody = "0123456789abcdefghijABCDEFGHIJ0123456789"
+
+func postRequest(conn string) (head, body string) {
+	return fmt.Sprintf("POST http://origin.test/up HTTP/1.1\r\nHost: origin.test\r\nX-Conn: %s\r\nContent-Length: %d\r\n\r\n", conn, len(postBody)), postBody
+}
+
+func connectRequest(conn string) string {
+	return "CONNECT origin-" + conn + ".test:443 HTTP/1.1\r\nHost: origin-" + conn + ".test:443\r\nX-Conn: " + conn + "\r\n\r\n"
+}
+
+func innerRequest(conn string) string {
+	return "GET /big HTTP/1.1\r\nHost: origin.test\r\nX-Conn: " + conn + "\r\n\r\n"
+}
+
+// flakyListener models accept(2) failing with ECONNABORTED: a connection whose client name starts with "abort" was
+// reset before it could be accepted; Accept reports a temporary error for it.
+type flakyListener struct{ net.Listener }
+
+type tempAcceptError struct{}
+
+func (tempAcceptError) Error() string   { return "accept: software caused connection abort" }
+func (tempAcceptError) Timeout() bool   { return false }
+func (tempAcceptError) Temporary() bool { return true }
+
+func (f flakyListener) Accept() (net.Conn, error) {
+	c, err := f.Listener.Accept()
+	if sc, ok := c.(*simnet.Conn); err == nil && ok && strings.HasPrefix(sc.Peer().Name, "abort") {
+		sc.Close()
+		return nil, &net.OpError{Op: "accept", Net: "tcp", Err: tempAcceptError{}}
+	}
+	return c, err
+}
+
+type lateObs struct {
+	name          string
+	lis           int
+	cl            *pworld.Client
+	done          bool
+	afterShutdown bool
+}
 
 func run(sc scenario) (body func(), check func(r *vrt.Result) []finding) {
 	var w *pworld.World
 	var clients []*pworld.Client
-	var late *pworld.Client
+	var echoes []string
+	var lates []*lateObs
 	var clientDone []bool
-	var lateDone bool
 	var closeRet bool
 	var retProblems []string
-	var acceptedAtCall int
 	var timeAdvanced bool
-	var lateAfterShutdown bool
+	var pendingAtAdvance string
+	if sc.Flavor == "mitm" {
+		initMITM()
+	}
+	nLis := 1
+	if sc.Listeners > 1 {
+		nLis = sc.Listeners
+	}
+	// namesOf lists the X-Conn values of the requests client i sends, in the order it sends them
+	namesOf := func(name string) []string {
+		for i, st := range sc.Place {
+			if name == fmt.Sprint(i) && (st == stWritingPiped || st == stRTPiped) {
+				return []string{name, name + "q"}
+			}
+		}
+		switch sc.Flavor {
+		case "prior":
+			return []string{name + "p", name}
+		case "mitm":
+			return []string{name + "c", name}
+		}
+		return []string{name}
+	}
+	// bodyFor is the body the origin sends on the exchange with X-Conn value conn: a large one for a connection
+	// parked in "writing"
+	bodyFor := func(conn string) string {
+		small := "hello from origin " + conn
+		for i, st := range sc.Place {
+			if (st == 5 || st == stWritingPiped) && conn == fmt.Sprint(i) {
+				return strings.Repeat(small+"\n", bigBodyLen/(len(small)+1)+1)[:bigBodyLen]
+			}
+		}
+		return small
+	}
 	body = func() {
 		w = pworld.NewWorld()
 		clients = make([]*pworld.Client, len(sc.Place))
+		echoes = make([]string, len(sc.Place))
 		clientDone = make([]bool, len(sc.Place))
-		late, lateDone, closeRet, retProblems, timeAdvanced, lateAfterShutdown = nil, false, false, nil, false, false
-		w.Respond = nil
+		lates, closeRet, retProblems, timeAdvanced, pendingAtAdvance = nil, false, nil, false, ""
+		w.Respond = func(req *http.Request) (*http.Response, error) {
+			return pworld.SimpleResponse(req, 200, bodyFor(req.Header.Get("X-Conn"))), nil
+		}
 		if sc.RTErr {
 			w.Respond = func(req *http.Request) (*http.Response, error) {
 				return nil, errors.New("simulated upstream failure")
 			}
 		}
-		if sc.Shaped {
-			w.Wrap = func(l net.Listener) net.Listener { return trafficshape.NewListener(l) }
+		switch sc.Flavor {
+		case "post":
+			w.Respond = func(req *http.Request) (*http.Response, error) {
+				b, err := io.ReadAll(req.Body)
+				if err != nil {
+					return nil, err
+				}
+				return pworld.SimpleResponse(req, 200, fmt.Sprintf("got %d bytes;", len(b))+bodyFor(req.Header.Get("X-Conn"))), nil
+			}
+		case "chunked":
+			w.Respond = func(req *http.Request) (*http.Response, error) {
+				res := pworld.SimpleResponse(req, 200, bodyFor(req.Header.Get("X-Conn")))
+				res.ContentLength = -1
+				res.TransferEncoding = []string{"chunked"}
+				return res, nil
+			}
+		case "origclose":
+			w.Respond = func(req *http.Request) (*http.Response, error) {
+				res := pworld.SimpleResponse(req, 200, bodyFor(req.Header.Get("X-Conn")))
+				res.Close = true
+				return res, nil
+			}
+		case "moderr":
+			w.OnRequest = func(req *http.Request) error { return errors.New("request modifier failed") }
+			w.OnResponse = func(res *http.Response) error { return errors.New("response modifier failed") }
+		case "skiprt":
+			w.OnRequest = func(req *http.Request) error {
+				if ctx := martian.NewContext(req); ctx != nil {
+					ctx.SkipRoundTrip()
+				}
+				return nil
+			}
+		case "connect502", "tunnel":
+			w.Proxy.SetDial(func(network, addr string) (net.Conn, error) {
+				name := strings.TrimSuffix(strings.TrimPrefix(addr, "origin-"), ".test:443")
+				w.Ev("rt-start", name, "dial "+addr)
+				if g, ok := w.Gates["rt:"+name]; ok {
+					g.Wait()
+				}
+				w.Ev("rt-end", name, "")
+				if sc.Flavor == "connect502" {
+					return nil, errors.New("simulated dial failure")
+				}
+				pc, oc := simnet.Pipe("up"+name, "origin"+name)
+				vrt.GoNamed("origin"+name, func() {
+					br := bufio.NewReader(oc)
+					for {
+						line, err := br.ReadString('\n')
+						if line != "" {
+							oc.Write([]byte("echo:" + line))
+						}
+						if err != nil {
+							break
+						}
+					}
+					oc.Close()
+				})
+				return pc, nil
+			})
+		case "mitm":
+			w.Proxy.SetMITM(mitmCfg)
 		}
+		wrap := func(l net.Listener) net.Listener {
+			if sc.TempErr != "" {
+				l = flakyListener{l}
+			}
+			if sc.Shaped {
+				l = trafficshape.NewListener(l)
+			}
+			return l
+		}
+		w.Wrap = wrap
+		listeners := []*simnet.Listener{w.L}
 		w.Start()
+		for k := 1; k < nLis; k++ {
+			l := simnet.Listen(fmt.Sprintf("10.0.0.2:%d", 8443+k))
+			listeners = append(listeners, l)
+			wl := wrap(l)
+			vrt.GoNamed(fmt.Sprintf("serve%d", k+1), func() { w.Proxy.Serve(wl) })
+		}
+		dialOn := func(k int, name string) (*pworld.Client, error) {
+			if k == 0 {
+				return w.Dial(name)
+			}
+			c, err := listeners[k].Dial(name)
+			if err != nil {
+				return nil, err
+			}
+			cl := &pworld.Client{Name: name, C: c}
+			cl.BR = bufio.NewReader(io.TeeReader(c, &cl.Raw))
+			return cl, nil
+		}
 		for i, st := range sc.Place {
 			i, st := i, st
 			name := fmt.Sprint(i)
 			switch st {
 			case 2:
 				w.Gate("reqmod:" + name)
-			case 3:
+			case 3, stRTPiped:
 				w.Gate("rt:" + name)
 			case 4:
 				w.Gate("resmod:" + name)
+			case stConnectReqmod:
+				w.Gate("reqmod:" + name + "c")
+			case stConnectResmod:
+				w.Gate("resmod:" + name + "c")
 			}
 			cg := w.Gate("client:" + name)
-			vrt.GoNamed("client"+name, func() {
-				cl, err := w.Dial("c" + name)
-				if err != nil {
-					clientDone[i] = true
-					return
-				}
-				clients[i] = cl
-				req := pworld.GetRequest(name, "/big")
+			// plain drives the stages of an ordinary exchange (request text req)
+			plain := func(cl *pworld.Client, req string) {
 				switch st {
 				case 0:
 					cg.Wait()
@@ -108,7 +376,7 @@ func run(sc scenario) (body func(), check func(r *vrt.Result) []finding) {
 					cl.Send(req[:20])
 					cg.Wait()
 					cl.Send(req[20:])
-				case 5:
+				case 5, stWrittenUnread:
 					cl.C.Peer().SetCapacity(16)
 					cl.Send(req)
 					cg.Wait()
@@ -125,77 +393,196 @@ func run(sc scenario) (body func(), check func(r *vrt.Result) []finding) {
 				case 9:
 					cl.Send(req + req[:20])
 					cg.Wait()
+				case stWritingPiped:
+					cl.C.Peer().SetCapacity(16)
+					cl.Send(req + pworld.GetRequest(name+"q", "/second"))
+					cg.Wait()
+				case stRTPiped:
+					cl.Send(req + pworld.GetRequest(name+"q", "/second"))
 				default:
 					cl.Send(req)
 				}
-				cl.ReadAllResponses("GET")
+			}
+			vrt.GoNamed("client"+name, func() {
+				cl, err := dialOn(i%nLis, "c"+name)
+				if err != nil {
+					clientDone[i] = true
+					return
+				}
+				clients[i] = cl
+				switch sc.Flavor {
+				case "prior":
+					cl.Send(pworld.GetRequest(name+"p", "/prior"))
+					if cl.ReadResponse("GET") != nil && !cl.EOF && cl.Err == nil {
+						plain(cl, pworld.GetRequest(name, "/big"))
+					}
+				case "post":
+					head, bod := postRequest(name)
+					switch st {
+					case 1:
+						cl.Send(head[:20])
+						cg.Wait()
+						cl.Send(head[20:] + bod)
+					case stMidBody:
+						cl.Send(head + bod[:15])
+						cg.Wait()
+						cl.Send(bod[15:])
+					case 5:
+						cl.C.Peer().SetCapacity(16)
+						cl.Send(head + bod)
+						cg.Wait()
+					default:
+						cl.Send(head + bod)
+					}
+				case "connect502":
+					if st == stWrittenUnread {
+						cl.C.Peer().SetCapacity(16)
+					}
+					cl.Send(connectRequest(name))
+					if st == stWrittenUnread {
+						cg.Wait()
+					}
+					// parsed like the answer to a HEAD: whatever the framing headers say, nothing after the head belongs to it
+					cl.ReadResponse("HEAD")
+				case "tunnel":
+					cl.Send(connectRequest(name))
+					if r := cl.ReadResponse("HEAD"); r != nil && r.Status == 200 {
+						if st == stTunnelOpen {
+							cg.Wait()
+						}
+						cl.Send("ping\n")
+						line, _ := cl.BR.ReadString('\n')
+						echoes[i] = line
+						cl.C.CloseWrite()
+					}
+				case "mitm":
+					cl.Send(connectRequest(name + "c"))
+					if r := cl.ReadResponse("HEAD"); r != nil && r.Status == 200 && !cl.EOF && cl.Err == nil {
+						switch st {
+						case stMitmIdle:
+							cg.Wait()
+						case stMitmTLSStall:
+							cl.Send("\x16\x03\x01\x00\xc8\x01\x00")
+							cg.Wait()
+						case stConnectReqmod, stConnectResmod:
+							// silent: the tunnel the proxy terminates itself stays idle
+						default:
+							plain(cl, innerRequest(name))
+						}
+					}
+				default:
+					plain(cl, pworld.GetRequest(name, "/big"))
+				}
+				if !cl.EOF && cl.Err == nil {
+					cl.ReadAllResponses("GET")
+				}
 				clientDone[i] = true
 			})
 		}
 		vrt.WaitQuiescent()
+		if sc.TempErr != "" {
+			vrt.GoNamed("aborter", func() {
+				if c, err := w.L.Dial("abort"); err == nil {
+					c.Abort()
+				}
+			})
+			if sc.TempErr == "before" {
+				vrt.WaitQuiescent() // the accept loop is now sleeping out its back-off
+			}
+		}
 		vrt.GoNamed("closer", func() {
 			// "accepted" = the accept loop has handed the connection to a handler (go handleLoop executed)
 			// before Close() was called; a connection still between Accept() returning and that hand-over
 			// is indistinguishable from one still in the kernel backlog.
-			acceptedAtCall = 0
+			handlersAtCall := 0
 			for _, ti := range vrt.Snapshot() {
 				if strings.Contains(ti.Label, "(*Proxy).Serve") {
-					acceptedAtCall++
+					handlersAtCall++
 				}
+			}
+			// the connections certainly handed over: all accepted ones if every one of them has its handler,
+			// otherwise all but the most recently accepted one of each listener (that one may be in the window)
+			var accepted []*simnet.Conn
+			total := 0
+			for _, l := range listeners {
+				total += len(l.Accepted)
+			}
+			for _, l := range listeners {
+				n := len(l.Accepted)
+				if total != handlersAtCall && n > 0 {
+					n--
+				}
+				accepted = append(accepted, l.Accepted[:n]...)
 			}
 			w.Ev("close-call", "", "")
 			w.Proxy.Close()
 			w.Ev("close-ret", "", "")
 			closeRet = true
 			// clause (c): evaluated at the very moment Close returns (no scheduling point in between)
-			for k := 0; k < acceptedAtCall; k++ {
-				if !w.L.Accepted[k].Closed() {
-					retProblems = append(retProblems, fmt.Sprintf("conn#%d still open", k))
+			for k, c := range accepted {
+				if !c.Closed() {
+					retProblems = append(retProblems, fmt.Sprintf("conn#%d (%s) still open", k, c.Name))
 				}
 			}
 			hk := 0
 			for _, ti := range vrt.Snapshot() {
 				if strings.Contains(ti.Label, "(*Proxy).Serve") {
-					if hk < acceptedAtCall && !ti.Done {
+					if hk < handlersAtCall && !ti.Done {
 						retProblems = append(retProblems, fmt.Sprintf("handler#%d not finished (%s)", hk, ti.Blocked))
 					}
 					hk++
 				}
 			}
-			if hk < acceptedAtCall {
-				retProblems = append(retProblems, fmt.Sprintf("only %d handlers spawned for %d accepted connections", hk, acceptedAtCall))
+			if hk < handlersAtCall {
+				retProblems = append(retProblems, fmt.Sprintf("only %d handlers spawned for %d accepted connections", hk, handlersAtCall))
 			}
 		})
-		lateBody := func() {
-			// "accepted after shutdown began" is decided by the proxy's own public state at the moment the client
-			// dials: a connection dialled while Closing() is already true is certainly accepted after shutdown
-			// began (one dialled in the window between the call of Close and its first effect is not)
-			lateAfterShutdown = w.Proxy.Closing()
-			cl, err := w.Dial("late")
-			if err != nil {
-				lateDone = true
-				return
+		lateBody := func(lo *lateObs) func() {
+			return func() {
+				// "accepted after shutdown began" is decided by the proxy's own public state at the moment the client
+				// dials: a connection dialled while Closing() is already true is certainly accepted after shutdown
+				// began (one dialled in the window between the call of Close and its first effect is not)
+				lo.afterShutdown = w.Proxy.Closing()
+				cl, err := dialOn(lo.lis, lo.name)
+				if err != nil {
+					lo.done = true
+					return
+				}
+				lo.cl = cl
+				cl.Send(pworld.GetRequest(lo.name, "/late"))
+				cl.ReadAllResponses("GET")
+				lo.done = true
 			}
-			late = cl
-			cl.Send(pworld.GetRequest("late", "/late"))
-			cl.ReadAllResponses("GET")
-			lateDone = true
+		}
+		if sc.Late != "" {
+			lates = append(lates, &lateObs{name: "late", lis: 0})
+			if sc.Late2 {
+				lates = append(lates, &lateObs{name: "late2", lis: nLis - 1})
+			}
 		}
 		if sc.Late == "racing" {
-			vrt.GoNamed("late", lateBody)
+			for _, lo := range lates {
+				vrt.GoNamed(lo.name, lateBody(lo))
+			}
 		}
 		vrt.WaitQuiescent()
 		for _, idx := range sc.Order {
 			name := fmt.Sprint(idx)
 			for _, k := range []string{"reqmod:", "rt:", "resmod:", "client:"} {
-				if g, ok := w.Gates[k+name]; ok {
-					g.Open()
+				for _, n := range []string{name, name + "c"} {
+					if g, ok := w.Gates[k+n]; ok {
+						g.Open()
+					}
 				}
 			}
 			vrt.WaitQuiescent()
 		}
+		lateStarted := sc.Late == "racing"
 		if sc.Late == "after" && closeRet {
-			vrt.GoNamed("late", lateBody)
+			lateStarted = true
+			for _, lo := range lates {
+				vrt.GoNamed(lo.name, lateBody(lo))
+			}
 			vrt.WaitQuiescent()
 		}
 		allDone := func() bool {
@@ -204,10 +591,40 @@ func run(sc scenario) (body func(), check func(r *vrt.Result) []finding) {
 					return false
 				}
 			}
-			return closeRet && (sc.Late == "" || lateDone || (sc.Late == "after" && late == nil))
+			if !closeRet {
+				return false
+			}
+			if lateStarted {
+				for _, lo := range lates {
+					if !lo.done {
+						return false
+					}
+				}
+			}
+			return true
+		}
+		if !allDone() && sc.TempErr != "" {
+			// the accept loop's back-off (at most one second) may have to run out before it looks at the backlog again
+			vrt.Sleep(2 * time.Second)
+			vrt.WaitQuiescent()
 		}
 		if !allDone() {
 			timeAdvanced = true
+			var pend []string
+			for i, d := range clientDone {
+				if !d {
+					st := sc.Place[i]
+					if st == stConnectReqmod || st == stConnectResmod {
+						st = stMitmIdle // after the 200 all three are the same idle tunnel
+					}
+					pend = append(pend, stageName[st])
+				}
+			}
+			if len(pend) == 0 {
+				pend = append(pend, "close_or_late")
+			}
+			sort.Strings(pend)
+			pendingAtAdvance = strings.Join(pend, "+")
 			vrt.Sleep(11 * time.Minute)
 			vrt.WaitQuiescent()
 		}
@@ -229,6 +646,20 @@ func run(sc scenario) (body func(), check func(r *vrt.Result) []finding) {
 		add := func(sig, format string, a ...interface{}) {
 			out = append(out, finding{sig, fmt.Sprintf(format, a...)})
 		}
+		// signatures of the plain matrix are unchanged; the added scenario classes get their own
+		cls := sc.class()
+		g := func(sig string) string { // scenario-wide symptoms
+			if cls != "" {
+				return sig + ":" + cls
+			}
+			return sig
+		}
+		stg := func(stage string) string { // per-connection symptoms of the parked connections
+			if sc.Flavor != "" {
+				return stage + "@" + sc.Flavor
+			}
+			return stage
+		}
 		if r.Outcome != "ok" {
 			p := r.Panic
 			if i := strings.IndexByte(p, '\n'); i > 0 {
@@ -238,11 +669,11 @@ func run(sc scenario) (body func(), check func(r *vrt.Result) []finding) {
 			if r.Outcome == "panic" && strings.Contains(p, "WaitGroup") {
 				kind = "panic_waitgroup"
 			}
-			add("outcome:"+kind, "execution ended with %s: %s", r.Outcome, p)
+			add(g("outcome:"+kind), "execution ended with %s: %s", r.Outcome, p)
 			return out
 		}
 		if !closeRet {
-			add("close:never_returned", "Close() had not returned even after the idle timeout elapsed")
+			add(g("close:never_returned"), "Close() had not returned even after the idle timeout elapsed")
 			return out
 		}
 		callTick, retTick := 0, 0
@@ -268,22 +699,42 @@ func run(sc scenario) (body func(), check func(r *vrt.Result) []finding) {
 				ks = append(ks, k)
 			}
 			sort.Strings(ks)
-			add("close_returned_early:"+strings.Join(ks, "+"), "when Close() returned: %v", retProblems)
+			add(g("close_returned_early:"+strings.Join(ks, "+")), "when Close() returned: %v", retProblems)
 		}
 		for _, e := range w.Events {
 			if e.Kind == "reqmod-start" && e.Tick > retTick {
-				add("reqmod_after_close_returned", "request modifier started for conn %s after Close() returned", e.Conn)
+				add(g("reqmod_after_close_returned"), "request modifier started for conn %s after Close() returned", e.Conn)
 			}
 		}
 		if timeAdvanced {
-			add("needed_idle_timeout", "clients/Close only finished after virtual time advanced past the idle timeout")
+			sig := g("needed_idle_timeout")
+			if sc.Flavor != "" && pendingAtAdvance != "close_or_late" {
+				// a stalled connection of one of the added flavours: name it, two different stalls must not share a signature
+				sig = "needed_idle_timeout:" + sc.Flavor + ":" + pendingAtAdvance
+			}
+			add(sig, "clients/Close only finished after virtual time advanced past the idle timeout (waiting for: %s)", pendingAtAdvance)
 		}
-		checkClient := func(name string, c *pworld.Client, done bool, stage string) {
+		evs := func(kind string, names []string) []pworld.Event {
+			var out []pworld.Event
+			for _, e := range w.Events {
+				if e.Kind != kind {
+					continue
+				}
+				for _, n := range names {
+					if e.Conn == n {
+						out = append(out, e)
+					}
+				}
+			}
+			return out
+		}
+		checkClient := func(names []string, c *pworld.Client, done bool, stage string, echo string) {
 			if c == nil {
 				return
 			}
-			starts := w.Find("reqmod-start", name)
-			ends := w.Find("resmod-end", name)
+			name := names[len(names)-1]
+			starts := evs("reqmod-start", names)
+			ends := evs("resmod-end", names)
 			if !done {
 				add("client_not_closed:"+stage, "client %s (%s) never saw EOF: connection left open", name, stage)
 				return
@@ -296,36 +747,62 @@ func run(sc scenario) (body func(), check func(r *vrt.Result) []finding) {
 				return
 			}
 			for k, res := range c.Responses {
-				wantStatus := 200
-				if sc.RTErr {
-					wantStatus = 502
+				isConnect := strings.HasPrefix(starts[k].Info, "CONNECT ")
+				wantStatus, wantBody := 200, bodyFor(starts[k].Conn)
+				switch {
+				case isConnect:
+					wantBody = ""
+					if sc.Flavor == "connect502" {
+						wantStatus = 502
+					}
+				case sc.RTErr:
+					wantStatus, wantBody = 502, ""
+				case sc.Flavor == "skiprt":
+					wantBody = ""
+				case sc.Flavor == "post":
+					n := 0
+					if strings.HasPrefix(starts[k].Info, "POST ") {
+						n = len(postBody)
+					}
+					wantBody = fmt.Sprintf("got %d bytes;", n) + bodyFor(starts[k].Conn)
 				}
-				if !res.Complete || res.Status != wantStatus || (len(res.Body) == 0 && !sc.RTErr) {
-					add("incomplete_response:"+stage, "client %s (%s): response %d incomplete (status %d, %d body bytes)", name, stage, k, res.Status, len(res.Body))
+				if !res.Complete || res.Status != wantStatus {
+					add("incomplete_response:"+stage, "client %s (%s): response %d incomplete (status %d, want %d; %d body bytes)", name, stage, k, res.Status, wantStatus, len(res.Body))
+				} else if string(res.Body) != wantBody {
+					add("wrong_body:"+stage, "client %s (%s): response %d carries a body of %d bytes (%.40q...), the origin sent %d bytes (%.40q...)", name, stage, k, len(res.Body), res.Body, len(wantBody), wantBody)
 				}
-				mustClose := k < len(ends) && callTick != 0 && callTick < ends[k].Tick
+				// A 2xx answer to CONNECT turns the connection into a tunnel: there is no HTTP connection left that
+				// the mark could refer to, so it is not judged there (interpretation, see AUDIT.md).
+				tunnelled := isConnect && wantStatus == 200
+				mustClose := !tunnelled && k < len(ends) && callTick != 0 && callTick < ends[k].Tick
 				if mustClose && !res.Close {
 					add("not_marked_close:"+stage, "client %s (%s): Close() was entered before the response modifier returned but the response lacks Connection: close", name, stage)
 				}
+			}
+			if sc.Flavor == "tunnel" && len(starts) > 0 && strings.HasPrefix(starts[0].Info, "CONNECT ") && len(c.Responses) > 0 && c.Responses[0].Status == 200 && echo != "echo:ping\n" {
+				add("tunnel_broken:"+stage, "client %s (%s): the tunnel answered %q to \"ping\", want \"echo:ping\"", name, stage, echo)
 			}
 			if !c.EOF {
 				add("no_eof:"+stage, "client %s (%s): no EOF after the responses", name, stage)
 			}
 		}
 		for i, c := range clients {
-			checkClient(fmt.Sprint(i), c, clientDone[i], stageName[sc.Place[i]])
+			checkClient(namesOf(fmt.Sprint(i)), c, clientDone[i], stg(stageName[sc.Place[i]]), echoes[i])
 		}
-		if late != nil {
-			// which accepted conn is it? the last one. Served only legitimately if accepted before Close was called.
-			if lateAfterShutdown {
-				if n := len(w.Find("reqmod-start", "late")); n > 0 {
-					add("late_conn_served", "a connection accepted after shutdown began was served (%d request modifier calls)", n)
+		for _, lo := range lates {
+			if lo.cl == nil {
+				continue
+			}
+			// Served only legitimately if accepted before shutdown began.
+			if lo.afterShutdown {
+				if n := len(w.Find("reqmod-start", lo.name)); n > 0 {
+					add(g("late_conn_served"), "a connection accepted after shutdown began was served (%d request modifier calls)", n)
 				}
-				if !lateDone {
-					add("late_conn_not_closed", "a connection accepted after shutdown began was never closed")
+				if !lo.done {
+					add(g("late_conn_not_closed"), "a connection accepted after shutdown began was never closed")
 				}
 			} else {
-				checkClient("late", late, lateDone, "late-before-close")
+				checkClient([]string{lo.name}, lo.cl, lo.done, "late-before-close", "")
 			}
 		}
 		return out
@@ -333,32 +810,53 @@ func run(sc scenario) (body func(), check func(r *vrt.Result) []finding) {
 	return
 }
 
-func scenarios(tier string) []scenario {
-	var out []scenario
-	perms := func(n int) [][]int {
-		var res [][]int
-		var rec func(cur []int, used []bool)
-		rec = func(cur []int, used []bool) {
-			if len(cur) == n {
-				res = append(res, append([]int(nil), cur...))
-				return
-			}
-			for i := 0; i < n; i++ {
-				if !used[i] {
-					used[i] = true
-					rec(append(cur, i), used)
-					used[i] = false
-				}
+func perms(n int) [][]int {
+	var res [][]int
+	var rec func(cur []int, used []bool)
+	rec = func(cur []int, used []bool) {
+		if len(cur) == n {
+			res = append(res, append([]int(nil), cur...))
+			return
+		}
+		for i := 0; i < n; i++ {
+			if !used[i] {
+				used[i] = true
+				rec(append(cur, i), used)
+				used[i] = false
 			}
 		}
-		rec(nil, make([]bool, n))
-		return res
+	}
+	rec(nil, make([]bool, n))
+	return res
+}
+
+// flavourStages lists, per flavour, the progress points at which an exchange of that flavour can be parked.
+var flavourStages = map[string][]int{
+	"prior":      {2, 3, 4, 5},
+	"post":       {1, stMidBody, 2, 3, 4, 5},
+	"chunked":    {2, 3, 4, 5},
+	"origclose":  {2, 3, 4, 5},
+	"moderr":     {2, 3, 4, 5},
+	"skiprt":     {2, 4, stWrittenUnread},
+	"connect502": {2, 3, 4, stWrittenUnread},
+	"tunnel":     {2, 3, 4, stTunnelOpen},
+	"mitm":       {stMitmIdle, stConnectReqmod, stConnectResmod, stMitmTLSStall, 1, 8, 2, 3, 4, 5},
+}
+
+var flavourOrder = []string{"prior", "post", "chunked", "origclose", "moderr", "skiprt", "connect502", "tunnel", "mitm"}
+
+func scenarios(tier string) []scenario {
+	var out []scenario
+	thorough := tier == "thorough"
+	emit := func(fam string, sc scenario) {
+		sc.Fam = fam
+		out = append(out, sc)
 	}
 	maxN := 3
 	for n := 1; n <= maxN; n++ {
 		dims := make([]int, n)
 		for i := range dims {
-			dims[i] = len(stageName)
+			dims[i] = 10
 			if n == 3 {
 				dims[i] = 6
 			}
@@ -369,6 +867,11 @@ func scenarios(tier string) []scenario {
 			if !sorted {
 				return
 			}
+			if n == 2 && !thorough && idx[1] > 5 && idx[0] != 3 {
+				// quick: the four variants of idle / mid-head are paired with a connection parked in the round trip
+				// only (thorough pairs them with every point and with each other)
+				return
+			}
 			for _, o := range perms(n) {
 				lates := []string{""}
 				if n == 1 {
@@ -377,29 +880,167 @@ func scenarios(tier string) []scenario {
 					lates = []string{"", "racing"}
 				}
 				for _, l := range lates {
-					out = append(out, scenario{Place: append([]int(nil), idx...), Order: o, Late: l})
+					emit(fmt.Sprintf("plain/n%d", n), scenario{Place: append([]int(nil), idx...), Order: o, Late: l})
 				}
 			}
 		})
 	}
+	// the response handed over completely but not yet read by the client (stage 5 before it was made to block)
+	for _, l := range []string{"", "racing", "after"} {
+		emit("plain/n1", scenario{Place: []int{stWrittenUnread}, Order: []int{0}, Late: l})
+	}
+	for _, other := range []int{3, 5} {
+		for _, o := range perms(2) {
+			emit("plain/n2", scenario{Place: []int{other, stWrittenUnread}, Order: o})
+		}
+	}
 	// the round trip fails (after shutdown began for the parked ones): the response owed is the 502
 	for st := 2; st <= 5; st++ {
 		for _, l := range []string{"", "racing"} {
-			out = append(out, scenario{Place: []int{st}, Order: []int{0}, Late: l, RTErr: true})
+			emit("rterr", scenario{Place: []int{st}, Order: []int{0}, Late: l, RTErr: true})
 		}
-		out = append(out, scenario{Place: []int{3, st}, Order: []int{1, 0}, RTErr: true})
+		emit("rterr", scenario{Place: []int{3, st}, Order: []int{1, 0}, RTErr: true})
 	}
 	// a traffic-shaped listener: what the accept loop does to the listener during the drain must not disturb the
 	// exchanges in flight
 	for st := 0; st <= 5; st++ {
 		for _, l := range []string{"", "racing"} {
-			out = append(out, scenario{Place: []int{st}, Order: []int{0}, Late: l, Shaped: true})
+			emit("shaped", scenario{Place: []int{st}, Order: []int{0}, Late: l, Shaped: true})
 		}
 	}
-	out = append(out, scenario{Place: []int{3, 4}, Order: []int{0, 1}, Late: "racing", Shaped: true}, scenario{Place: []int{2, 5}, Order: []int{1, 0}, Late: "racing", Shaped: true})
+	emit("shaped", scenario{Place: []int{3, 4}, Order: []int{0, 1}, Late: "racing", Shaped: true})
+	emit("shaped", scenario{Place: []int{2, 5}, Order: []int{1, 0}, Late: "racing", Shaped: true})
 	// zero parked connections: Close racing with a fresh connection only
-	out = append(out, scenario{Late: "racing"}, scenario{Late: "after"})
+	emit("plain/n0", scenario{Late: "racing"})
+	emit("plain/n0", scenario{Late: "after"})
+	// two late connections at the one listener (the accept loop leaves after the first one: the second is refused
+	// or reset with the backlog)
+	emit("plain/late2", scenario{Late: "racing", Late2: true})
+	emit("plain/late2", scenario{Late: "after", Late2: true})
+	emit("plain/late2", scenario{Place: []int{3}, Order: []int{0}, Late: "racing", Late2: true})
+	emit("plain/late2", scenario{Place: []int{3}, Order: []int{0}, Late: "after", Late2: true})
+
+	// ---- a complete second request pipelined behind the parked one (it is in the connection's read buffer when the
+	// handler next looks for a request - or never does)
+	for _, st := range []int{stWritingPiped, stRTPiped} {
+		for _, l := range []string{"", "racing"} {
+			emit("pipelined", scenario{Place: []int{st}, Order: []int{0}, Late: l})
+		}
+	}
+	for _, pl := range [][]int{{3, stWritingPiped}, {stWritingPiped, stWritingPiped}, {stWritingPiped, stRTPiped}} {
+		for _, o := range perms(2) {
+			if !thorough && o[0] != 1 {
+				continue
+			}
+			emit("pipelined", scenario{Place: pl, Order: o})
+		}
+	}
+	emit("pipelined", scenario{Place: []int{stWritingPiped}, Order: []int{0}, Late: "racing", Shaped: true})
+
+	// ---- a listener whose Accept fails temporarily around the moment of shutdown (the accept loop backs off),
+	// plain and traffic-shaped
+	for _, sh := range []bool{false, true} {
+		for _, mode := range []string{"before", "racing"} {
+			for st := 2; st <= 5; st++ {
+				emit("temperr", scenario{Place: []int{st}, Order: []int{0}, TempErr: mode, Shaped: sh})
+			}
+			emit("temperr", scenario{Place: []int{0}, Order: []int{0}, TempErr: mode, Shaped: sh, Late: "racing"})
+		}
+		emit("temperr", scenario{TempErr: "before", Shaped: sh, Late: "racing"})
+		emit("temperr", scenario{Place: []int{3, 4}, Order: []int{1, 0}, TempErr: "before", Shaped: sh})
+	}
+
+	// ---- exchange flavours: one connection at every point the flavour has, alone and with a late connection
+	for _, fl := range flavourOrder {
+		for _, st := range flavourStages[fl] {
+			for _, l := range []string{"", "racing"} {
+				emit("flavour/"+fl, scenario{Place: []int{st}, Order: []int{0}, Late: l, Flavor: fl})
+			}
+		}
+	}
+	// two connections of one flavour at different points, both release orders (the second connection's shutdown
+	// path runs while the first one is still parked)
+	pairs := map[string][][]int{
+		"post":       {{stMidBody, 3}, {stMidBody, stMidBody}},
+		"connect502": {{3, 4}},
+		"tunnel":     {{3, stTunnelOpen}, {stTunnelOpen, stTunnelOpen}},
+		"mitm":       {{stMitmIdle, 3}, {stConnectReqmod, 4}, {1, 5}},
+		"prior":      {{3, 5}},
+		"chunked":    {{4, 5}},
+	}
+	for _, fl := range flavourOrder {
+		for _, pl := range pairs[fl] {
+			for _, o := range perms(2) {
+				if !thorough && o[0] != 1 {
+					continue // quick: the later-parked one is released first
+				}
+				emit("flavour2/"+fl, scenario{Place: pl, Order: o, Flavor: fl})
+			}
+		}
+	}
+
+	// ---- two accept loops on the one proxy (cmd/proxy -tls-address): connection i dials listener i%2, one late
+	// connection per listener
+	for _, l := range []string{"racing", "after"} {
+		emit("two_listeners", scenario{Late: l, Late2: true, Listeners: 2})
+	}
+	for st := 0; st <= 5; st++ {
+		emit("two_listeners", scenario{Place: []int{st}, Order: []int{0}, Late: "racing", Late2: true, Listeners: 2})
+		if thorough || st == 3 {
+			emit("two_listeners", scenario{Place: []int{st}, Order: []int{0}, Late: "after", Late2: true, Listeners: 2})
+			emit("two_listeners", scenario{Place: []int{st}, Order: []int{0}, Late: "racing", Listeners: 2})
+		}
+	}
+	two := [][]int{{3, 3}, {2, 5}, {0, 4}}
+	if thorough {
+		two = nil
+		for a := 0; a <= 5; a++ {
+			for b := 0; b <= 5; b++ {
+				two = append(two, []int{a, b}) // not symmetric: the connections are at different listeners
+			}
+		}
+	}
+	for _, pl := range two {
+		for _, o := range perms(2) {
+			if !thorough && o[0] != 1 {
+				continue
+			}
+			emit("two_listeners", scenario{Place: pl, Order: o, Listeners: 2})
+			if thorough && pl[0] == pl[1] {
+				emit("two_listeners", scenario{Place: pl, Order: o, Late: "racing", Late2: true, Listeners: 2})
+			}
+		}
+	}
+	emit("two_listeners", scenario{Place: []int{3}, Order: []int{0}, Late: "racing", Late2: true, Listeners: 2, Shaped: true})
+	emit("two_listeners", scenario{Place: []int{4, 2}, Order: []int{0, 1}, Late: "racing", Listeners: 2, Shaped: true})
+
+	if thorough {
+		// more participants: two parked connections and a late one after Close returned; three parked connections and
+		// a late one; shaped listener with every flavour
+		for a := 0; a <= 5; a++ {
+			for b := a; b <= 5; b++ {
+				emit("plain/n2after", scenario{Place: []int{a, b}, Order: []int{1, 0}, Late: "after"})
+			}
+		}
+		for _, pl := range [][]int{{0, 3, 5}, {2, 3, 4}, {1, 2, 5}, {3, 3, 3}} {
+			emit("plain/n3late", scenario{Place: pl, Order: []int{2, 0, 1}, Late: "racing"})
+		}
+		for _, fl := range flavourOrder {
+			for _, st := range flavourStages[fl] {
+				emit("shaped/"+fl, scenario{Place: []int{st}, Order: []int{0}, Late: "racing", Flavor: fl, Shaped: true})
+			}
+		}
+		for st := 2; st <= 5; st++ {
+			emit("shaped/rterr", scenario{Place: []int{st}, Order: []int{0}, Late: "racing", RTErr: true, Shaped: true})
+		}
+	}
 	return out
+}
+
+type famStat struct {
+	Scenarios int
+	Execs     int64
+	Millis    int64
 }
 
 type shardOut struct {
@@ -408,15 +1049,48 @@ type shardOut struct {
 	Samples    []interface{}
 	Incomplete string
 	MinBound   int
+	Fams       map[string]*famStat
+}
+
+// boundFor is the deviation bound of a scenario: quick 2 (1 with three parked connections); thorough 3 (2 with three
+// parked connections), except where the space grows too fast for the thorough budget (measured: > 60k executions
+// per scenario at 3). Those stay at 2 in thorough: two parked connections when one of them is at a variant stage
+// (6-9, 15) or, with a racing late connection, inside the blocked write; two parked connections plus a late one
+// after Close returned; flavour pairs; anything behind a traffic-shaped listener with two parked connections, two
+// listeners or a flavour; two parked connections at two listeners. Their one-connection versions get 3.
+func boundFor(sc scenario, tier string) int {
+	bound := 2
+	if tier == "thorough" {
+		bound = 3
+		two := len(sc.Place) == 2
+		has := func(st int) bool {
+			for _, x := range sc.Place {
+				if x == st {
+					return true
+				}
+			}
+			return false
+		}
+		switch {
+		case sc.Listeners > 1 && (two || sc.Shaped),
+			strings.HasPrefix(sc.Fam, "flavour2/"),
+			strings.HasPrefix(sc.Fam, "shaped/"),
+			sc.Shaped && two,
+			sc.Fam == "plain/n2after",
+			sc.Fam == "plain/n2" && (sc.Place[0] > 5 || sc.Place[1] > 5),
+			sc.Fam == "plain/n2" && sc.Late == "racing" && has(5):
+			return 2
+		}
+	}
+	if len(sc.Place) == 3 {
+		return bound - 1
+	}
+	return bound
 }
 
 func main() {
 	tier := lib.Tier()
 	scen := scenarios(tier)
-	bound := 2
-	if tier == "thorough" {
-		bound = 3
-	}
 	if rp := os.Getenv("VERIF_REPLAY"); rp != "" {
 		var doc struct {
 			First struct {
@@ -450,22 +1124,30 @@ func main() {
 		return
 	}
 	if i, n := lib.ShardEnv(); n > 0 {
-		out := &shardOut{Counters: map[string]int64{}, MinBound: 99}
-		perScenario := 20 * time.Second
+		out := &shardOut{Counters: map[string]int64{}, MinBound: 99, Fams: map[string]*famStat{}}
+		// the caps exist for runaway spaces, not for a loaded machine: the largest quick scenario takes ~3 s of CPU
+		perScenario := 40 * time.Second
 		if tier == "thorough" {
-			perScenario = 150 * time.Second
+			perScenario = 240 * time.Second
 		}
+		only := os.Getenv("C07_ONLY") // development aid: run only the families whose name contains this
 		for si, sc := range scen {
 			if si%n != i {
 				continue
 			}
-			b := bound
-			if len(sc.Place) == 3 {
-				b = bound - 1
+			if only != "" && !strings.Contains(sc.Fam, only) {
+				continue
 			}
+			b := boundFor(sc, tier)
 			body, check := run(sc)
 			seen := map[string]bool{}
+			t0 := time.Now()
+			var judged, nontrivial int64
 			st := vrt.Explore(vrt.ExploreConfig{Bound: b, Deadline: time.Now().Add(perScenario), Config: vrt.Config{MaxPoints: 20000}}, body, func(prefix []int, r *vrt.Result) bool {
+				judged++
+				if len(prefix) > 0 {
+					nontrivial++
+				}
 				for _, f := range check(r) {
 					if !seen[f.Sig] {
 						seen[f.Sig] = true
@@ -483,8 +1165,24 @@ func main() {
 				fmt.Fprintln(os.Stderr, "ENGINE ERROR:", st.EngineError)
 				os.Exit(2)
 			}
+			fs := out.Fams[sc.Fam]
+			if fs == nil {
+				fs = &famStat{}
+				out.Fams[sc.Fam] = fs
+			}
+			fs.Scenarios++
+			fs.Execs += int64(st.Execs)
+			fs.Millis += time.Since(t0).Milliseconds()
+			if sf := os.Getenv("C07_STATS"); sf != "" { // development aid: one line per scenario
+				if f, err := os.OpenFile(sf, os.O_APPEND|os.O_CREATE|os.O_WRONLY, 0o644); err == nil {
+					fmt.Fprintf(f, "%s\t%d\t%d\t%d\t%s\n", sc.Fam, st.Execs, time.Since(t0).Milliseconds(), st.BoundCompleted, sc)
+					f.Close()
+				}
+			}
 			out.Counters["scenarios"]++
 			out.Counters["executions"] += int64(st.Execs)
+			out.Counters["evaluations"] += judged
+			out.Counters["nondefault_schedules"] += nontrivial
 			out.Counters["points"] += st.Points
 			out.Counters["distinct_outcomes"] += int64(st.DistinctLogs)
 			out.Counters["horizon_hits"] += int64(st.HorizonHits)
@@ -511,6 +1209,7 @@ func main() {
 	rep := lib.NewReport("C07", "model_checking")
 	files, errs, outs := lib.RunShards(16, lib.Root+"/.build/c07/shards")
 	minBound := 99
+	fams := map[string]*famStat{}
 	for i, f := range files {
 		if errs[i] != nil {
 			fmt.Fprintf(os.Stderr, "shard %d failed: %v\n%s\n", i, errs[i], outs[i])
@@ -531,6 +1230,16 @@ func main() {
 			}
 			rep.Count(k, v)
 		}
+		for k, v := range so.Fams {
+			fs := fams[k]
+			if fs == nil {
+				fs = &famStat{}
+				fams[k] = fs
+			}
+			fs.Scenarios += v.Scenarios
+			fs.Execs += v.Execs
+			fs.Millis += v.Millis
+		}
 		for _, v := range so.Violations {
 			rep.Violate(v.Sig, v.Desc, v.Replay)
 		}
@@ -544,13 +1253,17 @@ func main() {
 			minBound = so.MinBound
 		}
 	}
+	bound := boundFor(scenario{}, tier)
+	rep.Coverage["families"] = fams
 	rep.Coverage["states"] = rep.Counter("distinct_outcomes")
 	rep.Coverage["transitions"] = rep.Counter("points")
 	rep.Coverage["traces_validated_against_impl"] = rep.Counter("executions")
+	rep.Coverage["distinct_nontrivial"] = rep.Counter("nondefault_schedules")
+	rep.Coverage["rule"] = "every scenario of the listed families x every schedule within the deviation bound, enumerated level by level by vrt.Explore; an execution is non-trivial when its schedule deviates from the default schedule at least once (a preemption, a non-default select case or partner)"
 	rep.Coverage["bound_completed"] = minBound
 	rep.Coverage["exhaustive"] = rep.Incomplete == ""
-	rep.Coverage["bounds"] = fmt.Sprintf("%d scenarios (1..%d connections x 6 progress points + 4 variants of idle/mid-head (keep-alive, pipelined partial head, client that never completes the head; 3-connection scenarios use the 6 basic points) (sorted placements) x all release orders, late connection racing/after); every schedule with <= %d deviations (preemptions, select cases, partner choices; one less for 3-connection scenarios)", len(scen), 3, bound)
+	rep.Coverage["bounds"] = fmt.Sprintf("%d scenarios: plain matrix (1..%d connections x 6 progress points + 4 variants of idle/mid-head (keep-alive, pipelined partial head, client that never completes the head; 3-connection scenarios use the 6 basic points) (sorted placements) x all release orders, late connection racing/after); failing round trips; traffic-shaped listener; 9 exchange flavours (second exchange of a keep-alive connection, POST parked mid body, chunked and close-marked origin responses, failing modifiers, skipped round trip, failing CONNECT, CONNECT tunnel, exchange inside a MITM'd CONNECT) at every point they have; two accept loops with one late connection each; every schedule with <= %d deviations (preemptions, select cases, partner choices; one less for 3-connection scenarios; thorough keeps 2 for the scenario classes listed at boundFor: pairs with a variant stage, pairs with a blocked write and a racing late connection, flavour pairs, two-connection / two-listener / flavour scenarios behind a traffic-shaped listener, two connections at two listeners, two connections with a late one after Close returned)", len(scen), 3, bound)
 	rep.Coverage["explanation"] = "each execution runs the real proxy.go (rewritten so that sync/chan/select/go/time are scheduler operations) over simnet; states = distinct observation logs summed over scenarios"
-	rep.Assumptions = []string{"round trips are performed by a synchronous harness RoundTripper (http.Transport is not explored)", "simnet models TCP close/EOF/deadline semantics"}
+	rep.Assumptions = []string{"round trips are performed by a synchronous harness RoundTripper (http.Transport is not explored)", "simnet models TCP close/EOF/deadline semantics", "inside a MITM'd CONNECT the client speaks plain text (the TLS branch of the same code path is not explored)"}
 	rep.Finish()
 }
